@@ -143,7 +143,7 @@ Section Proofs.
   Proof.
     induction rh as [|o older IH]; simpl.
     - split; [discriminate | intros [m H]; discriminate].
-    - destruct o as [s|s|s k v|s k|s|s|b s|b k v|b k|b|b|b|b acts|s b|s b]; simpl; try exact IH.
+    - destruct o as [s|s|s k v|s k|s|s|b s|b k v|b k|b|b|b|b acts|s b|s1|s b]; simpl; try exact IH.
       + destruct (Z.eqb s sid); [|exact IH].
         destruct (conn_r older sid) eqn:C; [split; eauto | exact IH | exact IH].
       + destruct (Z.eqb s sid); [|exact IH].
@@ -167,7 +167,7 @@ Section Proofs.
   Lemma fmap_sorted rh sid m : fmap_r rh sid = Some m -> sorted m.
   Proof.
     revert m. induction rh as [|o older IH]; intros m; simpl; [discriminate|].
-    destruct o as [s|s|s k v|s k|s|s|b s|b k v|b k|b|b|b|b acts|s b|s b]; simpl; try apply IH.
+    destruct o as [s|s|s k v|s k|s|s|b s|b k v|b k|b|b|b|b acts|s b|s1|s b]; simpl; try apply IH.
     - destruct (Z.eqb s sid); [|apply IH]. destruct (conn_r older sid); try apply IH.
       intro H. inv H. unfold Model.init_map. apply sorted_aset, sorted_aset. exact I.
     - destruct (Z.eqb s sid); [discriminate | apply IH].
@@ -185,7 +185,7 @@ Section Proofs.
   Lemma bnew_sorted rh b : sorted (bnew_r rh b).
   Proof.
     induction rh as [|o older IH]; simpl; [exact I|].
-    destruct o as [s|s|s k v|s k|s|s|b0 s|b0 k v|b0 k|b0|b0|b0|b0 acts|s b0|s b0]; simpl; try exact IH.
+    destruct o as [s|s|s k v|s k|s|s|b0 s|b0 k v|b0 k|b0|b0|b0|b0 acts|s b0|s1|s b0]; simpl; try exact IH.
     - destruct (Z.eqb b0 b); [|exact IH]. destruct (bsid_r older b); [apply sorted_aset; exact IH | exact I].
     - destruct (Z.eqb b0 b); [|exact IH]. destruct (bsid_r older b); [apply sorted_script_new; exact IH | exact I].
   Qed.
@@ -194,7 +194,7 @@ Section Proofs.
     bsid_r rh b = None -> bnew_r rh b = [] /\ bdirty_r rh b = false /\ bdata_r rh b = [].
   Proof.
     induction rh as [|o older IH]; simpl; [auto|].
-    destruct o as [s|s|s k v|s k|s|s|b0 s|b0 k v|b0 k|b0|b0|b0|b0 acts|s b0|s b0]; simpl; try exact IH.
+    destruct o as [s|s|s k v|s k|s|s|b0 s|b0 k v|b0 k|b0|b0|b0|b0 acts|s b0|s1|s b0]; simpl; try exact IH.
     - destruct (Z.eqb b0 b); [|exact IH].
       destruct (bsid_r older b) eqn:B; [discriminate|].
       destruct (conn_r older s); [|discriminate|discriminate]. intros _. destruct (IH eq_refl) as [N [D _]]. auto.
@@ -262,7 +262,7 @@ Section Proofs.
     intro R. assert (LV := fun sid => rel_live rh s sid R).
     assert (CN := fun sid => rel_conn_none rh s sid R).
     destruct R as [RF RB].
-    destruct o as [s0|s0|s0 k v|s0 k|s0|s0|b0 s0|b0 k v|b0 k|b0|b0|b0|b0 acts|s0 b0|s0 b0]; simpl.
+    destruct o as [s0|s0|s0 k v|s0 k|s0|s0|b0 s0|b0 k v|b0 k|b0|b0|b0|b0 acts|s0 b0|s1|s0 b0]; simpl.
     - (* OConnect *)
       destruct (aget s0 (front val s)) as [fs|] eqn:A; simpl.
       + split; [|exact RB]. intro sid. rewrite RF. unfold fstate_r. simpl.
@@ -421,6 +421,7 @@ Section Proofs.
         destruct (bsid_r rh b) eqn:BS; [reflexivity|].
         destruct (conn_r rh s0) eqn:C; try reflexivity.
         apply fmap_live in C. destruct C as [m C]. congruence.
+    - (* OFrontHook *) rewrite LV. destruct (fmap_r rh s1); simpl; split; assumption.
     - (* OForwardKeep *)
       rewrite LV. destruct (fmap_r rh s0) as [m|] eqn:F; simpl.
       + assert (C : conn_r rh s0 = CLive) by (apply fmap_live; eauto).
@@ -488,7 +489,7 @@ Section Proofs.
     assert (LV := fun sid => rel_live (rev h) (final h) sid R).
     assert (CN := fun sid => rel_conn_none (rev h) (final h) sid R).
     destruct R as [RF RB]. unfold Spec.spec_obs, Spec.forward_spec, Spec.fmap, Spec.bsid, Spec.conn_of, Spec.bnew, Spec.bdata.
-    destruct o as [s0|s0|s0 k v|s0 k|s0|s0|b0 s0|b0 k v|b0 k|b0|b0|b0|b0 acts|s0 b0|s0 b0]; simpl.
+    destruct o as [s0|s0|s0 k v|s0 k|s0|s0|b0 s0|b0 k v|b0 k|b0|b0|b0|b0 acts|s0 b0|s1|s0 b0]; simpl.
     - destruct (aget s0 (front val (final h))) as [fs|] eqn:A.
       + simpl. destruct (conn_r (rev h) s0) eqn:C; [|reflexivity|reflexivity].
         apply CN in C. congruence.
@@ -512,6 +513,7 @@ Section Proofs.
     - rewrite RB. unfold bstate_r. destruct (bsid_r (rev h) b0) as [sd|]; [|reflexivity]. simpl.
       rewrite LV. destruct (fmap_r (rev h) sd); [destruct (has_kick acts)|]; reflexivity.
     - rewrite LV. destruct (fmap_r (rev h) s0); reflexivity.
+    - rewrite LV. destruct (fmap_r (rev h) s1); reflexivity.
     - rewrite LV. destruct (fmap_r (rev h) s0); reflexivity.
   Qed.
 
@@ -561,7 +563,7 @@ Section Proofs.
   Theorem frame h o sid : writes_to h o <> Some sid -> fmap (h ++ [o]) sid = fmap h sid.
   Proof.
     intro N. rewrite fmap_snoc. unfold Spec.fmap.
-    destruct o as [s0|s0|s0 k v|s0 k|s0|s0|b0 s0|b0 k v|b0 k|b0|b0|b0|b0 acts|s0 b0|s0 b0]; simpl in *; try reflexivity.
+    destruct o as [s0|s0|s0 k v|s0 k|s0|s0|b0 s0|b0 k v|b0 k|b0|b0|b0|b0 acts|s0 b0|s1|s0 b0]; simpl in *; try reflexivity.
     - destruct (Z.eqb_spec s0 sid); [congruence | reflexivity].
     - destruct (Z.eqb_spec s0 sid); [congruence | reflexivity].
     - destruct (Z.eqb_spec s0 sid); [congruence | reflexivity].
@@ -773,7 +775,7 @@ Section Proofs.
 
   Lemma bsid_step rh o b s : bsid_r rh b = Some s -> bsid_r (o :: rh) b = Some s.
   Proof.
-    intro H. destruct o as [s0|s0|s0 k v|s0 k|s0|s0|b0 s0|b0 k v|b0 k|b0|b0|b0|b0 acts|s0 b0|s0 b0]; simpl; try exact H.
+    intro H. destruct o as [s0|s0|s0 k v|s0 k|s0|s0|b0 s0|b0 k v|b0 k|b0|b0|b0|b0 acts|s0 b0|s1|s0 b0]; simpl; try exact H.
     - destruct (Z.eqb b0 b); [|exact H]. rewrite H. reflexivity.
     - destruct (Z.eqb b0 b); [|exact H]. rewrite H. reflexivity.
     - destruct (Z.eqb b0 b); [|exact H]. rewrite H. reflexivity.
